@@ -121,7 +121,14 @@ def build_dir(ctx, case):
     from moclo.registry.base import FilesystemRegistry
     src = source_records(ctx)
     base = src[case["files"][0]["src"]][1] if case["files"] else src[0][1]
-    mem = fs.memoryfs.MemoryFS()
+    if case.get("backend") == "disk":
+        # a real directory, the ordinary use (PyFilesystem's OSFS: its wildcard matching is not the in-memory one's)
+        import fs as _fs
+        import tempfile
+        case["_tmp"] = tempfile.mkdtemp(prefix="moclo-verif-dir-")
+        mem = _fs.open_fs(case["_tmp"])
+    else:
+        mem = fs.memoryfs.MemoryFS()
     for f in case["files"]:
         rec, _ = src[f["src"]]
         if f.get("labels"):
@@ -139,6 +146,16 @@ def build_dir(ctx, case):
 
 
 def check_dir(ctx, case):
+    import shutil
+    try:
+        _check_dir(ctx, case)
+    finally:
+        tmp = case.pop("_tmp", None)
+        if tmp:
+            shutil.rmtree(tmp, ignore_errors=True)
+
+
+def _check_dir(ctx, case):
     reg, base = build_dir(ctx, case)
     exts = case.get("extensions") or ["gb", "gbk"]
     if all(e in ("gb", "gbk", "genbank", "GB") for e in exts):
@@ -151,6 +168,12 @@ def check_dir(ctx, case):
     # a sub-directory named like a plasmid file holds no plasmid: its stem is an absent key unless a file has it
     absent = [d.rsplit(".", 1)[0] for d in case["dirs"] if "." in d and d.rsplit(".", 1)[0] not in (expect or ())]
     absent += [f["stem"] for f in case["files"] if f["stem"] not in (expect or ())]
+    # what lies in a sub-directory, and other spellings of a path to a plasmid file, are not keys; nor is the empty
+    # name of a dot-file
+    absent += [d + "/inner" for d in case["dirs"]]
+    for f in case["files"][:2]:
+        absent += ["/" + f["stem"], "./" + f["stem"], "../" + f["stem"], f["stem"] + "/"]
+    ctx.note("dir-backend:" + case.get("backend", "memory"))
     check_mapping(ctx, "directory registry", reg, case, expect_keys=expect, absent_keys=absent)
     ctx.note("dir-files", len(case["files"]))
     ctx.case(case, nontrivial=len(list(reg)) >= 2 if expect is None else len(expect) >= 2)
@@ -323,7 +346,8 @@ def gen_dir(rng, nsrc):
     exts = rng.choice([None, None, None, ["gb"], ["gbk", "gb"], ["genbank"], ["gb", "gbk", "genbank"], [".gb"],
                        ["gb", ".gbk"], [".gb", ".gbk"]])
     return {"files": files, "dirs": dirs, "extensions": exts,
-            "junk": rng.sample(["README", "notes.txt", "seq.fa", ".hidden"], rng.randint(0, 2))}
+            "backend": rng.choice(["memory", "memory", "disk"]),
+            "junk": rng.sample(["README", "notes.txt", "seq.fa", ".hidden", ".gb", ".gbk"], rng.randint(0, 2))}
 
 
 def run(ctx):
